@@ -224,6 +224,32 @@ PROPS = {
         "not_decided": ["confluence: reordered policies have the same sorted form", "cmr/commit/satisfy/compile clauses of C16"],
         "explanation": "",
     },
+    "C14": {
+        "units": ["jets_core", "jets_elements", "jets_bitcoin"],
+        "parallel_units": True,
+        "kani": {"quick": [], "thorough": []},
+        "native_cex": "c14_jet_codes_replay",
+        "level": "proof",
+        "level_text": "Deductive proof (Verus), exhaustive over the three finite jet families (368 Core, 471 Elements, 428 Bitcoin jets): the real `encode` of each "
+                      "family writes exactly its table's code; the real `decode` (its `decode_bits!` tree expanded by the macro's own three rules and cut into sub-tree "
+                      "functions) computes a decision tree `dec`; and over those two contracts: (soundness) whatever `decode` accepts starts with exactly the bits `encode` "
+                      "writes for the returned jet and consumes exactly those; (round trip) the bits `encode` writes for a jet, followed by ANY continuation, decode to that "
+                      "jet; (prefix-freeness) no jet's code is a prefix of another's. Only these Rust-side code-table clauses of C14 are addressed.",
+        "level_note": "The decode tree, the code table and the per-jet proof scripts are generated from /repo's text on every run (vx/jetgen.py: G1 table, R19 macro expansion, "
+                      "R20 outlining, G2 decision-tree spec, G3 proof scripts); every generated step is checked by Verus (Z3, and Verus' interpreter for the arithmetic of the "
+                      "1267 literal codes). Assumed: BitIter::next's and BitWriter::write_bits_be's contracts (proved in unit `bitstream`, property C13); the extractor expands "
+                      "`decode_bits!` exactly as rustc would (the macro text is compared with the three rules the expander implements, else the run is undecided); `.into()` on "
+                      "decode::Error is the identity. NOT decided: name <-> parse round trip (str), every comparison with libsimplicity's C tables (roots, types, costs) and "
+                      "C prototypes, Core-vs-Elements type names, exec_jet buffer sizes.",
+        "assumptions": [
+            "BitIter::next and BitWriter::write_bits_be satisfy the contracts proved for them in unit bitstream (C13)",
+            "the extractor's expansion of decode_bits! equals rustc's (three-rule macro, text compared on every run)",
+            "ByteSrc / ByteSink contracts of the caller-supplied byte iterator / writer",
+        ],
+        "not_decided": ["name parses back to the jet (str)", "cmr / source_ty / target_ty / cost equal libsimplicity's tables", "Core jets have the types of their Elements namesakes",
+                        "extern declarations match the C prototypes", "exec_jet buffer widths"],
+        "explanation": "",
+    },
 }
 
 NOT_APPLICABLE = [
